@@ -205,6 +205,13 @@ impl Builder {
         self
     }
 
+    /// (verification builds only) Sets the debounce interval of active blob updates
+    #[cfg(pearl_verif)]
+    pub fn verif_debounce_interval_ms(mut self, ms: u64) -> Self {
+        self.config.verif_set_debounce_interval_ms(ms);
+        self
+    }
+
     /// Set max dirty bytes before filesync will be performed in background
     pub fn set_max_dirty_bytes_before_sync(mut self, bytes: u64) -> Self {
         self.config.set_max_dirty_bytes_before_sync(bytes);
